@@ -86,9 +86,12 @@ impl FunctionMarkupPass {
                 returns: ret,
             })
         }
-        // TODO: Handle functions with no return statements
+        // A function with no reachable return statement cannot be analysed
         else {
-            Err(Box::new(CfgError::UnexpectedError))
+            match entry.labels().into_iter().min() {
+                Some(label) => Err(Box::new(CfgError::FunctionWithoutReturn(label))),
+                None => Err(Box::new(CfgError::UnexpectedError)),
+            }
         }
     }
 }
